@@ -121,7 +121,7 @@ func TestC10_Exhaustive(t *testing.T) {
 func genHop(ids int) *rapid.Generator[hop] {
 	return rapid.Custom(func(rt *rapid.T) hop {
 		op := rapid.SampledFrom([]string{"start", "start", "start", "do", "indicate", "respond", "respond", "respond", "unknown", "garbage", "readerr",
-			"tick", "tick", "tick", "tick", "fail", "setrto", "mutate", "close"}).Draw(rt, "op")
+			"tick", "tick", "tick", "tick", "advance", "fail", "setrto", "mutate", "close"}).Draw(rt, "op")
 		h := hop{Op: op}
 		switch op {
 		case "start", "do", "indicate":
@@ -142,6 +142,8 @@ func genHop(ids int) *rapid.Generator[hop] {
 			h.Junk = fmt.Sprintf("%x", rapid.SliceOfN(rapid.Byte(), n, n).Draw(rt, "junk"))
 		case "tick":
 			h.At = rapid.SampledFrom([]string{"before", "at", "after", "after", "after", "far"}).Draw(rt, "at")
+		case "advance":
+			h.RTO = int64(rapid.SampledFrom([]time.Duration{1, time.Millisecond, 40 * time.Millisecond, 150 * time.Millisecond}).Draw(rt, "advanceBy"))
 		case "setrto":
 			h.RTO = int64(rapid.SampledFrom([]time.Duration{1, time.Millisecond, 50 * time.Millisecond, 300 * time.Millisecond, 3 * time.Second}).Draw(rt, "rto"))
 		case "close":
